@@ -29,6 +29,17 @@ impl<'k> Clone for Str<'k> {
     fn clone(&self) -> (r: Self) ensures r == *self { unimplemented!() }
 }
 
+// assumed (core/src/str.rs:178-190): `Str == Str` is equality of content
+impl<'a, 'b> PartialEq<Str<'b>> for Str<'a> {
+    #[verifier::external_body]
+    fn eq(&self, other: &Str<'b>) -> bool { unimplemented!() }
+}
+impl<'a> Eq for Str<'a> {}
+impl<'a, 'b> vstd::std_specs::cmp::PartialEqSpecImpl<Str<'b>> for Str<'a> {
+    open spec fn obeys_eq_spec() -> bool { true }
+    open spec fn eq_spec(&self, other: &Str<'b>) -> bool { self@ == other@ }
+}
+
 // assumed (core/src/str.rs:110,125,150): the content of a `Str` is the `str` it was made from
 impl<'k> Str<'k> {
     #[verifier::external_body]
